@@ -12,7 +12,7 @@ PTR = {"memory": 1, "hybrid-mem": 1, "hybrid-shared-mem": 1, "hybrid-persist": 1
 INCL = {"memory": 1, "hybrid-mem": 1, "hybrid-shared-mem": 1, "hybrid-persist": 1, "hybrid-gated-shared": 1, "redis": 0, "hybrid-redis": 0}    # readable at exactly the deadline (never observed)
 
 CONNECT, AUTHOK, AUTHFAIL, KICK, HEARTBEAT, CLOSE, TICK, STALE, SEND, SENDRACE, SREG, SUNREG, SREFRESH, AUTHLOST = 0, 1, 2, 3, 4, 5, 6, 7, 8, 9, 10, 11, 12, 13
-SHUTDOWN, FAULT = 14, 15
+SHUTDOWN, FAULT, CHALLENGE = 14, 15, 16
 SIDE_CONDITIONS = 9   # lemmas of Proofs/SideC08.v
 
 
@@ -159,6 +159,13 @@ def session_history(rng, nodes, clients, length):
                 ops.append([CLOSE, n, c])
                 gone(n, c)
                 open_conns.remove((n, c))
+        elif k < 0.745 and (owner or tunnelled):
+            # a phase-1 handshake message (no proof) on a connection that was authenticated EARLIER (by a control or by a
+            # tunnel-typed handshake): answered with a challenge; nothing may be (re-)registered for it
+            cand = [nc for nc in usable if nc[1] in owner or nc[1] in tunnelled]
+            if cand:
+                n, c = rng.choice(cand)
+                ops.append([CHALLENGE, n, c, owner.get(c) or rng.choice(clients), rng.choice(CONTROL_SHAPES[:12])])
         elif k < 0.76:
             # a forwarding path asks for a client that never logged in (id 99): a pure read
             ops.append([SEND, rng.randrange(1, nodes + 1), 99, rng.randrange(2)])
@@ -270,6 +277,12 @@ def scripted(rng):
     out.append(("node-shutdown-old", base + [[HEARTBEAT, 2, 2], [SHUTDOWN, 1], [CLOSE, 1, 1], [TICK, 2], [HEARTBEAT, 2, 2], [TICK, 2], [CLOSE, 2, 2]]))
     # cloud control fails the heartbeat's runtime-state refresh: the location record is kept alive all the same
     out.append(("cloud-fault-heartbeats", [[FAULT, 1, 1], [CONNECT, 1, 1], [AUTHOK, 1, 1, x, 0]] + [[TICK, 2], [HEARTBEAT, 1, 1]] * 3 + [[TICK, 2], [CLOSE, 1, 1]]))
+    # the client moved to node 2; a phase-1 handshake message arrives on its OLD, still authenticated connection on node 1 (and on a
+    # connection that only did a tunnel-typed handshake): the most recent SUCCESSFUL handshake stays (2, 2)
+    out.append(("phase1-on-old-connection", base + [[CHALLENGE, 1, 1, x, 0], [HEARTBEAT, 2, 2], [TICK, 2], [CHALLENGE, 1, 1, x, 1], [HEARTBEAT, 2, 2],
+                                                     [TICK, 2], [CLOSE, 1, 1], [HEARTBEAT, 2, 2], [TICK, 1]]))
+    out.append(("phase1-on-tunnel-authenticated", [[CONNECT, 2, 2], [AUTHOK, 2, 2, x, 0], [CONNECT, 1, 3], [AUTHOK, 1, 3, x, TUNNEL_SHAPES[0]],
+                                                    [CHALLENGE, 1, 3, x, 0], [HEARTBEAT, 2, 2], [TICK, 2], [CLOSE, 1, 3], [HEARTBEAT, 2, 2], [TICK, 1]]))
     # three nodes, ping-pong, cleanups in reverse order
     out.append(("three-nodes", [[CONNECT, 1, 1], [AUTHOK, 1, 1, x], [CONNECT, 2, 2], [AUTHOK, 2, 2, x], [CONNECT, 3, 3],
                                 [AUTHOK, 3, 3, x], [CLOSE, 2, 2], [HEARTBEAT, 3, 3], [TICK, 2], [CLOSE, 1, 1],
@@ -389,6 +402,8 @@ def realauth_cases(ctx, thorough):
             [[0, 2, 1], [1, 2, 1, 2], [0, 1, 2], [1, 1, 2, 1], [2, 1, 2], [3, 2, 1], [2, 2, 1]]},
            {"mode": "realauth", "tag": "response-lost", "ops":
             [[0, 1, 1], [1, 1, 1, 0], [3, 1, 1], [0, 2, 2], [1, 2, 2, 3], [2, 2, 2], [3, 1, 1], [2, 1, 1]]},
+           {"mode": "realauth", "tag": "phase1-on-old-connection", "ops":
+            [[0, 1, 1], [1, 1, 1, 0], [0, 2, 2], [1, 2, 2, 0], [1, 1, 1, 4], [3, 2, 2], [2, 1, 1], [3, 2, 2], [2, 2, 2]]},
            {"mode": "realauth", "tag": "move-control-then-tunnel", "ops":
             [[0, 1, 1], [1, 1, 1, 0], [0, 2, 2], [1, 2, 2, 0], [0, 1, 3], [1, 1, 3, 1], [2, 1, 1], [3, 2, 2], [2, 1, 3], [3, 2, 2]]}]
     for _ in range(40 if thorough else 6):
